@@ -975,7 +975,13 @@ static sexp analyze_define (sexp ctx, sexp x, int depth) {
 #if SEXP_USE_UNWRAPPED_TOPLEVEL_BINDINGS
       if (sexp_synclop(name)) name = sexp_synclo_expr(name);
 #endif
-      sexp_env_cell_define(ctx, env, name, SEXP_VOID, &varenv);
+      /* R7RS 5.3.1: redefining a bound variable is an assignment, so the old value */
+      /* stays visible until the new one has been computed */
+      tmp = sexp_env_cell_loc(ctx, env, name, 0, &varenv);
+      value = tmp ? sexp_cdr(tmp) : SEXP_UNDEF;
+      if (sexp_env_cell_define(ctx, env, name, SEXP_VOID, &varenv) == tmp
+          && value != SEXP_UNDEF && !sexp_syntacticp(value))
+        sexp_cdr(tmp) = value;
       if (sexp_pairp(sexp_cadr(x))) {
         tmp = sexp_cons(ctx, sexp_cdadr(x), sexp_cddr(x));
         tmp = sexp_cons(ctx, SEXP_VOID, tmp);
